@@ -5,12 +5,14 @@ import Driver.Fl
 import Driver.Cls
 import Driver.Flood
 import Driver.Grp
+import Driver.Commit
 /-! Model driver: one request per line on stdin, one answer per line on stdout.
     Pure areas answer from the request alone; `store` threads the backend states. -/
 open Drv
 
 structure State where
   store : Store.DrvSt := {}
+  commit : Commit.CS := {}
 
 def dispatch (st : State) (line : String) : State × String :=
   match (line.splitOn " ").filter (· ≠ "") with
@@ -19,6 +21,7 @@ def dispatch (st : State) (line : String) : State × String :=
   | "cls" :: r => (st, Cls.handle r)
   | "flood" :: r => (st, Flood.handle r)
   | "grp" :: r => (st, Grp.handle r)
+  | "commit" :: r => let (c', out) := Commit.handle st.commit r; ({ st with commit := c' }, out)
   | "store" :: r => let (s', out) := Store.handle st.store r; ({ st with store := s' }, out)
   | [] => (st, "bad empty")
   | a :: _ => (st, s!"bad area {a}")
